@@ -26,10 +26,12 @@ def decVal (cs : List Char) : Nat := cs.foldl (fun a c => a * 10 + (c.toNat - '0
 def isDec (c : Char) : Bool := '0'.toNat ≤ c.toNat && c.toNat ≤ '9'.toNat
 
 /-- `str::parse::<usize>()` (64-bit host): optional single leading `+`, at least one ASCII digit, no overflow. -/
+def stripPlus : List Char → List Char
+  | '+' :: r => r
+  | s => s
+
 def parseUsize (s : List Char) : Option Nat :=
-  let ds := match s with
-    | '+' :: r => r
-    | _ => s
+  let ds := stripPlus s
   if ds.isEmpty then none
   else if ds.all isDec then
     let v := decVal ds
